@@ -94,10 +94,13 @@ async fn send_event(
 ) -> Result<(), CriticalError> {
 	let tags = vec![Tag::Source(Source::Keyboard), Tag::Keyboard(msg)];
 
-	let event = Event {
+	#[cfg_attr(not(watchexec_verif), allow(unused_mut))]
+	let mut event = Event {
 		tags,
 		metadata: Default::default(),
 	};
+	#[cfg(watchexec_verif)]
+	crate::sources::fs::verif::stamp(&mut event);
 
 	trace!(?event, "processed keyboard input into event");
 	if let Err(err) = events.send(event, Priority::Normal).await {
